@@ -64,7 +64,7 @@ PROPS = {
     },
     "C06": {
         "stages": [sim(20, 360), real(8, 150)],
-        "rule": "random DAGs incl. injected ordering cycles (must be rejected with a real cycle listed, nothing of the cycle started) and validation-only cycles (must be accepted), generated manifests settled in phase 1, all -j/-k/pool combinations, systematic completion orders on small cases; hang = wait with nothing running / scheduler iterations without events beyond 4*steps+16 / panic; non-trivial = >= 3 steps with a step waiting for >= 2 producers, or a cyclic case",
+        "rule": "random DAGs incl. injected ordering cycles (must be rejected with a real cycle listed, nothing of the cycle started) and validation-only cycles (must be accepted), generated manifests settled in phase 1, all -j/-k/pool combinations, systematic completion orders on small cases; hang = wait with nothing running / scheduler iterations without events beyond 4*steps+16 / panic; non-trivial = >= 3 steps with a step waiting for >= 2 producers, or a cyclic case; black box: dependency chains of 500-2000 steps (thorough: also 60000, known finding F13) through `-t restat` must be walked without a crash",
         "must_observe": ["events", "cyclic_cases", "validation_cycle_cases"],
         "assumptions": SIM_ASSUME,
     },
@@ -137,7 +137,7 @@ PROPS = {
     },
     "C13": {
         "stages": [pure(12, 240), real(6, 120), asan_pure(120), miri(1500), sim(8, 150)],
-        "rule": "exhaustive over {a . / \\}^n for n <= 9 (quick) / 11 (thorough) and {a b . /}^n for n <= 8 / 10, then random paths of 1-60 components (UTF-8 names, .., ., empty, mixed separators) and re-spellings (inserted ./, x/../, doubled separators before the last component) which must canonicalise identically; checks: equals the independent component-list canonicaliser, idempotent, never longer, no ., empty or name/.. component left, .. only leading, same location; assert_unchecked/set_len preconditions are checked by the build profile; non-trivial = canon(p) != p",
+        "rule": "exhaustive over {a . / \\}^n for n <= 9 (quick) / 11 (thorough) and {a b . /}^n for n <= 8 / 10, then random paths of 1-60 components (UTF-8 names, .., ., empty, mixed separators) and re-spellings (inserted ./, x/../, doubled separators before the last component) which must canonicalise identically; checks: equals the independent component-list canonicaliser, idempotent, never longer, no ., empty or name/.. component left, .. only leading, same location; assert_unchecked/set_len preconditions are checked by the build profile; non-trivial = canon(p) != p; E1: histories in which commands report dependencies under several spellings (./x, a/../x, x) must be recorded under the canonical name and behave as one node (C09's workload); E2: command-line targets and depfile/showIncludes entries under other spellings through the real binary",
         "must_observe": ["exhaustive_inputs", "random_inputs", "respell_pairs"],
         "assumptions": PURE_ASSUME,
     },
@@ -155,13 +155,13 @@ PROPS = {
     },
     "C20": {
         "stages": [pure(15, 240), asan_pure(120), miri(60), real(14, 300), real(0, 180, tiers=("thorough",), n2="tsan")],
-        "rule": "exhaustive: strings of <= 6 (quick) / 7 (thorough) characters over {a, e-acute, katakana BI, emoji} with 0/3/9 bytes of ASCII padding x columns 10..len+15 x seconds {0,2,3,99,100,999,1000,99999,10^6} through task_message, every max through truncate, all state-count vectors with total <= 12 through progress_bar(40); random long strings (combining marks, raw non-UTF-8 bytes through from_utf8_lossy), widths 10-300, large counts; oracle: no panic, result = prefix at a character boundary + ... + time note, at most max(cols, note+3) bytes, unchanged iff it fits, bar exactly 40 bytes; non-trivial = the naive cut position falls inside a multi-byte character",
+        "rule": "exhaustive: strings of <= 6 (quick) / 7 (thorough) characters over {a, e-acute, katakana BI, emoji} with 0/3/9 bytes of ASCII padding x columns 10..len+15 x seconds {0,2,3,99,100,999,1000,99999,10^6} through task_message, every max through truncate, all state-count vectors with total <= 12 through progress_bar(40); random long strings (combining marks, raw non-UTF-8 bytes through from_utf8_lossy), widths 10-300, large counts; oracle: no panic, result = prefix at a character boundary + ... + time note, at most max(cols, note+3) bytes, unchanged iff it fits, bar exactly 40 bytes; non-trivial = the naive cut position falls inside a multi-byte character; black box: builds of 3-10 (quick) / 3-30 (thorough) tasks whose descriptions, commands and last output lines mix 1-4 byte characters, combining marks and raw non-UTF-8 bytes, run under a pseudo-terminal of width 1-300 (with a resize during the build in a third of the cases) and, as a twin, without a terminal: exit status, outputs built and summary line must agree, every progress bar shown must be 40 wide with total = wanted commands, cut task lines must fit the terminal",
         "must_observe": ["exhaustive_strings", "exhaustive_count_vectors", "random_inputs"],
         "assumptions": PURE_ASSUME + ["end-to-end pty runs are a separate black-box stage when present"],
     },
     "C16": {
         "stages": [real(25, 480, extra=["--strace", "1"]), real(0, 180, extra=["--strace", "0"], tiers=("thorough",), n2="asan"), real(0, 180, tiers=("thorough",), n2="tsan"), real(0, 120, extra=["--wrap", "valgrind -q --error-exitcode=99 --trace-children=no"], tiers=("thorough",), n2="release")],
-        "rule": "black box: 4-20 (quick) / 8-64 (thorough) independent tasks at -j 1-16 whose commands print planned byte streams (sizes 0, 1, 2, 4095, 4096, 4097, 8192, 65535, 65536, 65537, 150000, 300000; split over stdout and stderr in chunks of 1-70000 bytes, with and without final newline, with sleeps), exit with codes 0-255 or die by HUP/TERM/KILL/USR1/PIPE, use response files (quotes, UTF-8) and outputs in nested new directories; every agent checks cwd, stdin (/dev/null at EOF), open descriptors (only 0,1,2), stdout/stderr being one pipe, output directories, response file content and its argv; n2's stdout must contain each task's stream exactly once and contiguously, a `failed:` line exactly for the non-zero/signalled tasks, and the exit status must reflect them; every third case runs shell snippets (quotes, $$, redirections, subshells, backticks, UTF-8, tabs) under n2 and, as a differential twin, directly with /bin/sh -c, comparing the files produced, and a sample under strace compares the exact execve argv; non-trivial = at least 2 tasks with >= 4096 bytes of output and overlapping execution (from the agent log)",
+        "rule": "black box: 4-20 (quick) / 8-64 (thorough) independent tasks at -j 1-16 whose commands print planned byte streams (sizes 0, 1, 2, 4095, 4096, 4097, 8192, 65535, 65536, 65537, 150000, 300000; split over stdout and stderr in chunks of 1-70000 bytes, with and without final newline, with sleeps), exit with codes 0-255 or die by HUP/TERM/KILL/USR1/PIPE, use response files (quotes, UTF-8) and outputs in nested new directories; every agent checks cwd, stdin (/dev/null at EOF), open descriptors (only 0,1,2), stdout/stderr being one pipe, output directories, response file content and its argv; n2's stdout must contain each task's stream exactly once and contiguously, a `failed:` line exactly for the non-zero/signalled tasks, and the exit status must reflect them; every third case runs shell snippets (quotes, $$, redirections, subshells, backticks, UTF-8, tabs) under n2 and, as a differential twin, directly with /bin/sh -c, comparing the files produced, and a sample under strace compares the exact execve argv; non-trivial = at least 2 tasks with >= 4096 bytes of output and overlapping execution (from the agent log); every twelfth case sends SIGINT to n2's process group mid-build: n2 must stop starting commands and exit non-zero",
         "must_observe": ["agent_events", "task_outputs_checked", "twin_files_compared"],
         "assumptions": REAL_ASSUME,
     },
